@@ -5,13 +5,13 @@ CONSTANTS
   Errs = {"e1", "e2"}
   Invs = {"i1"}
   Conns = {"c1", "c2"}
-  OmitChoices = {0}
-  InitStamps = {0}
+  OmitChoices = {0, 999999999}
+  InitStamps = {0, 1}
   NoDefault = {"p1"}
   InitScopeSets = {{}, {"all"}}
   ActScopes = {"all", "p1"}
   MaxNow = 8
-  Depth = 4
+  Depth = 3
   FullParams = {"p1"}
   LiteParams = {"p2"}
   GenConns = {"c2"}
